@@ -48,13 +48,47 @@ Theorem fills_private_to_instance : forall md lib fuel g c t a g' c',
 Proof. exact cctx_stable_lemma. Qed.
 Print Assumptions fills_private_to_instance.
 
-(* read side: a slot tag of an instance created by a component tag (outer Context present) takes its fills from the
-   entry of the id it finds under _DJC_COMPONENT_CTX and from nowhere else (the django-mode index search over the layer
-   list is confined to instances created from Python, which have no outer Context) *)
-Theorem fills_looked_up_by_id_only : forall md rid ci name g ds,
-  ci_outer ci <> None -> slot_fills_of md rid ci name g ds = ci_fills ci.
-Proof. exact slot_fills_of_own. Qed.
+(* read side, ALL instances (tag-created or not), both modes, any layer list, any other cache content: a slot tag that
+   finds id `rid` under _DJC_COMPONENT_CTX and entry `ci` under that id renders exactly the slot function stored in
+   `ci` under its fill name (`default` for the flagged slot when such a fill exists), on the Context the mode prescribes;
+   nothing else of the cache occurs on the right-hand side.  (Since /repo 7d75a37 there is no index search over the
+   layer list any more that could substitute another instance's fills.) *)
+Theorem fills_looked_up_by_id_only : forall md rec name isd isr data body g c kwv rid ci g1 sf,
+  mkwargs data (dicts c) = Some kwv -> is_extracting (dicts c) = false ->
+  cget KEY (dicts c) = Some (CId rid) -> alookup rid (g_cctx g) = Some ci ->
+  slot_default_check rid ci name isd g = MOk g1 ->
+  isd && negb (str_eqb name default_key) && smem name (ci_fills ci) && smem default_key (ci_fills ci) = false ->
+  slookup (if isd && smem default_key (ci_fills ci) then default_key else name) (ci_fills ci) = Some sf ->
+  mslot md rec name isd isr data body g c =
+    mbind (slot_extra md ci true (dicts c)) (fun extra =>
+      if is_django md then
+        mbind (m_render_func rec sf (VRec kwv) (CSlotRef body (oid c) (oid c) (dicts c) (slot_rvars (dicts c))) g1
+                 (with_dicts c (cpush extra (dicts c)))) (fun '(a, g3, c2) => MOk (a, g3, with_dicts c2 (cpop (dicts c2))))
+      else
+        let '(used, g2) := match ci_outer ci with
+                           | Some o => (o, g1)
+                           | None => let '(o, g') := fresh g1 in ({| oid := o; dicts := [builtins] |}, g')
+                           end in
+        mbind (m_render_func rec sf (VRec kwv) (CSlotRef body (oid c) (oid used) (dicts c) (slot_rvars (dicts c))) g2
+                 (with_dicts used (cpush extra (dicts used)))) (fun '(a, g3, _) => MOk (a, g3, c))).
+Proof. exact mslot_filled_lemma. Qed.
 Print Assumptions fills_looked_up_by_id_only.
+
+(* ... and when that entry has no fill under the fill name: TemplateSyntaxError if `required`, else the slot's OWN
+   default content on its own Context (so slots nested in it find the same id again) *)
+Theorem unfilled_slot_renders_own_default_mech : forall md rec name isd data body g c kwv rid ci g1,
+  mkwargs data (dicts c) = Some kwv -> is_extracting (dicts c) = false ->
+  cget KEY (dicts c) = Some (CId rid) -> alookup rid (g_cctx g) = Some ci ->
+  slot_default_check rid ci name isd g = MOk g1 ->
+  isd && negb (str_eqb name default_key) && smem name (ci_fills ci) && smem default_key (ci_fills ci) = false ->
+  slookup (if isd && smem default_key (ci_fills ci) then default_key else name) (ci_fills ci) = None ->
+  mslot md rec name isd true data body g c = MErr ETemplateSyntax /\
+  mslot md rec name isd false data body g c =
+    mbind (slot_extra md ci false (dicts c)) (fun extra =>
+      mbind (m_render_func rec (unfilled_fn body) (VRec kwv) (CSlotRef body (oid c) (oid c) (dicts c) (slot_rvars (dicts c))) g1
+               (with_dicts c (cpush extra (dicts c)))) (fun '(a, g3, c2) => MOk (a, g3, with_dicts c2 (cpop (dicts c2))))).
+Proof. exact mslot_unfilled_lemma. Qed.
+Print Assumptions unfilled_slot_renders_own_default_mech.
 
 (* ===================== 3. M refines S ===================== *)
 (* For every program of the fragment wf_prog and every fuel, the mechanism model and the lexically scoped reference
